@@ -87,7 +87,37 @@ func evalC01Tree(c c01Tree) (fl *Failure) {
 	if !bytes.Equal(re, want) {
 		return failf("c01|reserialize|bytes", "parse+serialize of %q gave %q", clip(want), clip(re))
 	}
+	// (4) serialization is a function of the value: serializing again, and after the value has been read
+	// through its accessors (array cursors advanced, payloads fetched), gives the same bytes
+	if re2, err := m.RESPBytes(); err != nil || !bytes.Equal(re2, want) {
+		return failf("c01|reserialize|second", "serializing the parsed %s a second time gave %q, %v; the first time %q", v, clip(re2), err, clip(want))
+	}
+	if _, err := fromMsg(m); err != nil {
+		return failf("c01|parse|shape", "parsed form of %s is malformed: %v", v, err)
+	}
+	walkArrays(m)
+	if re3, err := m.RESPBytes(); err != nil || !bytes.Equal(re3, want) {
+		return failf("c01|reserialize|after-reading", "serializing the parsed %s after its elements had been read gave %q, %v; before %q", v, clip(re3), err, clip(want))
+	}
 	return nil
+}
+
+// walkArrays reads every (nested) array through its cursor, leaving the cursors wherever reading leaves them.
+func walkArrays(m *proto.Message) {
+	if m == nil || !m.IsArray() {
+		return
+	}
+	arr, err := m.Array()
+	if err != nil || arr == nil {
+		return
+	}
+	for i := 0; i < 1<<20; i++ {
+		e, err := arr.Next()
+		if err != nil || e == nil {
+			return
+		}
+		walkArrays(e)
+	}
 }
 
 func clip(b []byte) []byte {
